@@ -69,6 +69,62 @@ func c13Exec(c *Ctx, cs c13Case) (outcome string) {
 			}
 		}
 	}
+	// queries are read-only: no exported method that does not claim to change the reference may change
+	// what it prints, how it is classified or how it encodes (the URL is held by pointer, so a copy of the
+	// value would be changed with it: the expectations are taken as text beforehand)
+	text0, flags0, ptr0 := r.String(), refFlags(r), r.GetPointer().String()
+	for _, q := range []struct {
+		name string
+		call func()
+	}{
+		{"RemoteURI", func() { _ = r.RemoteURI() }},
+		{"IsValidURI", func() {
+			if !r.HasFullURL { // a full URL would be fetched from the network
+				_ = r.IsValidURI()
+				_ = r.IsValidURI("/nonexistent/base.json")
+			}
+		}},
+		{"Inherits", func() { child, _ := spec.NewRef("other.json#/x"); _, _ = r.Inherits(child); _, _ = child.Inherits(r) }},
+		{"IsCanonical", func() { _ = r.IsCanonical(); _ = r.IsRoot(); _ = r.GetURL() }},
+		{"MarshalJSON", func() { _, _ = r.MarshalJSON(); _, _ = r.GobEncode() }},
+	} {
+		q.call()
+		if r.String() != text0 {
+			viol("changed-by-query:"+q.name+":text", text0, r.String(), "")
+		} else if refFlags(r) != flags0 {
+			viol("changed-by-query:"+q.name+":classification", flags0, refFlags(r), "")
+		} else if r.GetPointer().String() != ptr0 {
+			viol("changed-by-query:"+q.name+":pointer", ptr0, r.GetPointer().String(), "")
+		}
+	}
+	// an encoding handed out stays what it is: a later encoding of another reference must not change it
+	otherRef := spec.MustCreateRef("http://other.example/d/e.json#/definitions/Other")
+	for _, enc := range []struct {
+		name string
+		f    func(spec.Ref) ([]byte, error)
+		dec  func([]byte, *spec.Ref) error
+	}{
+		{"GobEncode", func(x spec.Ref) ([]byte, error) { return x.GobEncode() }, func(b []byte, x *spec.Ref) error { return x.GobDecode(b) }},
+		{"MarshalJSON", func(x spec.Ref) ([]byte, error) { return x.MarshalJSON() }, func(b []byte, x *spec.Ref) error { return x.UnmarshalJSON(b) }},
+	} {
+		kept, err := enc.f(r)
+		if err != nil {
+			continue
+		}
+		snapshot := append([]byte{}, kept...)
+		for i := 0; i < 2; i++ {
+			_, _ = enc.f(otherRef)
+		}
+		if !bytes.Equal(kept, snapshot) {
+			viol("retained-encoding-overwritten:"+enc.name, fmt.Sprintf("%q", snapshot), fmt.Sprintf("%q", kept), "the bytes returned by an earlier call changed when another reference was encoded")
+		}
+		var back spec.Ref
+		if err := enc.dec(kept, &back); err != nil {
+			viol("retained-encoding-undecodable:"+enc.name, "", "", err.Error())
+		} else {
+			same("retained-"+enc.name, back)
+		}
+	}
 	// JSON
 	b, err := json.Marshal(r)
 	if err != nil {
@@ -160,7 +216,7 @@ func c13Run(c *Ctx) {
 		c.Res.States++
 		o := c13Exec(c, cs)
 		c.Res.Evaluations++
-		c.Res.Transitions += 6 // print/parse, JSON, holder JSON, gob, gob slice, gob map
+		c.Res.Transitions += 13 // print/parse, 5 query groups, 2 retained encodings, JSON, holder JSON, gob, gob slice, gob map
 		if o != "rejected" {
 			c.Res.Nontrivial++
 		}
@@ -219,7 +275,7 @@ func trimLeftSlash(s string) string {
 func init() {
 	register(&CheckDef{
 		ID: "C13", Build: "light", Run: c13Run, RunCase: c13RunCase,
-		Rule:        "states = every reference string of the product scheme x authority x path x query x fragment (plus the zero Ref and opaque urn:/mailto: forms); transitions = print+parse, JSON encode/decode (bare and inside Refable), gob encode/decode (top level, slice element, map value); equality = canonical text plus the five classification flags plus IsRoot; non-trivial = the string is accepted as a reference",
+		Rule:        "states = every reference string of the product scheme x authority x path x query x fragment (plus the zero Ref and opaque urn:/mailto: forms); transitions = print+parse, every read-only method (RemoteURI, IsValidURI on non-network forms, Inherits, IsCanonical/IsRoot/GetURL, MarshalJSON/GobEncode) followed by a comparison of text, classification and pointer, GobEncode/MarshalJSON results retained across later encodings of another reference, JSON encode/decode (bare and inside Refable), gob encode/decode (top level, slice element, map value); equality = canonical text plus the five classification flags plus IsRoot; non-trivial = the string is accepted as a reference",
 		Assumptions: []string{"authorities are hosts with at most one port (no userinfo), as C13 states", "an 'empty reference' is the zero Ref{}; NewRef(\"\") is the reference to the document root"},
 		MinOutcomes: 2,
 	})
